@@ -8,6 +8,8 @@ sys.path.insert(0, os.path.dirname(os.path.dirname(os.path.abspath(__file__))))
 scratch = sys.argv[1]
 only = sys.argv[2:]
 OUT = '/verif/selftest/refactorings'
+SRC = os.environ.get('REFACTOR_DIR', '/tmp/refactor')
+BATCH = os.environ.get('REFACTOR_BATCH', 'a')
 os.makedirs(OUT, exist_ok=True)
 
 
@@ -45,17 +47,17 @@ def touched_functions(scratch):
 
 from pyvc import run
 reg = run.load_contracts()
-res_path = OUT + '/results.json'
+res_path = OUT + f'/results_{BATCH}.json'
 results = json.load(open(res_path)) if os.path.exists(res_path) else {}
 readme = {}
-if os.path.exists('/tmp/refactor/README.md'):
-  for l in open('/tmp/refactor/README.md'):
+if os.path.exists(SRC + '/README.md'):
+  for l in open(SRC + '/README.md'):
     m = re.match(r'\W*(\d\d)\W+(.*)', l)
     if m:
       readme[m.group(1)] = m.group(2).strip()
-for patch in sorted(glob.glob('/tmp/refactor/patch*.diff')):
-  nn = re.search(r'patch(\d+)', patch).group(1)
-  if only and nn not in only:
+for patch in sorted(glob.glob(SRC + '/patch*.diff')):
+  nn = BATCH + re.search(r'patch(\d+)', patch).group(1)
+  if only and nn not in only and nn[1:] not in only:
     continue
   sh('git reset -q --hard; git checkout -q --detach main && git reset -q --hard && git clean -fdq', cwd=scratch)
   rc, o = sh(f'git apply {patch}', cwd=scratch)
@@ -68,7 +70,7 @@ for patch in sorted(glob.glob('/tmp/refactor/patch*.diff')):
     base = (c.target or q).split('#')[0]
     if any(base == f or base.startswith(f + '.') or f.startswith(base + '.') for f in fns):
       props |= set(c.props)
-  entry = {'what': readme.get(nn, ''), 'functions': sorted(fns), 'properties': sorted(props),
+  entry = {'what': readme.get(nn[1:], ''), 'functions': sorted(fns), 'properties': sorted(props),
            'checks': {}}
   for p in sorted(props):
     rc, o = sh(f'./vcheck {p} --tier quick', cwd='/verif', env=dict(os.environ, PYVC_REPO=scratch))
